@@ -41,6 +41,7 @@ fn main() {
         only: None,
         tiny: cfg!(miri),
         budget_s: 1e9,
+        started: Instant::now(),
         shard: (0, 1),
         stages: vec![],
         hang_s: 30,
